@@ -1133,6 +1133,10 @@ class Model(object):
                            're.ASCII': re.A, 're.A': re.A, 're.VERBOSE': re.X, 're.X': re.X}
                 if t in flagmap:
                     return int(flagmap[t])
+            if node.attr in ('pattern', 'flags') and isinstance(node.value, ast.Name):
+                base = f(node.value)
+                if isinstance(base, RegexConst):
+                    return base.pattern if node.attr == 'pattern' else base.flags
             return Opaque('attribute %s' % t)
         if isinstance(node, ast.JoinedStr):
             return Opaque('f-string')
